@@ -3,7 +3,7 @@
 From Coq Require Import ZArith List Bool Ring.
 From Coq Require Import PrimFloat.
 From PV Require Import Model.Base Model.Sched Model.Seq.
-From PV Require Gen.Pure Model.Chan Proofs.PureEq.
+From PV Require Gen.Pure Gen.PureSlot Model.Chan Proofs.PureEq Proofs.PureSlotEq.
 From PV Require Import Proofs.SchedInv Proofs.SeqInv Proofs.PhaseSpec.
 Import ListNotations.
 Open Scope Z_scope.
@@ -107,3 +107,20 @@ Theorem C07_source_update_last_used :
     r_used (update_last_used r t) = Gen.Pure.gen_update_last_used (r_used r) t.
 Proof. exact PureEq.update_last_used_eq. Qed.
 Print Assumptions C07_source_update_last_used.
+
+(** ... and where the drift-corrected phase of a scheduled pulse is computed: the
+    model's [make_next_pulse_slot] returns exactly the slot (start, end, phase of
+    the scheduled pulse: the programmed phase minus the drift accumulated up to
+    the pulse's ACTUAL start, reduced modulo 2 pi) computed by the function
+    regenerated from the current source of _Schedule.make_next_pulse_slot. *)
+Theorem C07_source_make_next_pulse_slot :
+  forall (e : env) (p : pulse) (n : Z) (barriers : list Z) (proto : Z)
+         (dp : option drift) (block : bool) (s : sched) (last : slot) (c : chan),
+    last_slot n s = (s, Ok last) ->
+    the_chan n s = (s, Ok c) ->
+    make_next_pulse_slot e p n barriers proto dp block s =
+    (s, PureSlotEq.slot_of e n p dp last
+          (Gen.PureSlot.gen_make_next_pulse_slot s c last n barriers
+             (negb (negb (proto =? 1))) (proto =? 2) dp (p_phase p) (p_dur p) (en_max e) block)).
+Proof. exact PureSlotEq.make_next_pulse_slot_eq. Qed.
+Print Assumptions C07_source_make_next_pulse_slot.
